@@ -47,6 +47,7 @@ func pollmgrScenario(n0, pickers int, reconfig string) *vsched.Scenario {
 	var configured []int
 	var rr []bool
 	var handoff hbFlag
+	var unserved []int
 	sc := &vsched.Scenario{Name: "pollmgr", Horizon: 8000}
 	sc.Body = func() {
 		picks, seqPicks, configured, rr = nil, nil, nil, nil
@@ -101,6 +102,20 @@ func pollmgrScenario(n0, pickers int, reconfig string) *vsched.Scenario {
 			vsched.Settle(fmt.Sprintf("phase%d-seq", ph))
 			vsched.LogEvent(fmt.Sprintf("phase%d:%s loops=%d", ph, what, n))
 		}
+		// end to end: every poller of the final pool has a loop that serves it - a wake-up written to
+		// its eventfd is read (counting goroutines cannot tell a poller without a loop from one
+		// whose loop waits on another poller's descriptors)
+		_, _, polls := netpoll.VerifManagerState()
+		unserved = nil
+		for _, p := range polls {
+			_, ev := netpoll.VerifPollFds(p)
+			before := vsyscall.L().EventfdReadsBy[ev]
+			p.Trigger()
+			vsched.Settle("after-trigger")
+			if vsyscall.L().EventfdReadsBy[ev] == before {
+				unserved = append(unserved, ev)
+			}
+		}
 	}
 	sc.Outcome = func(ex *vsched.Exec) string {
 		var o []string
@@ -146,6 +161,9 @@ func pollmgrScenario(n0, pickers int, reconfig string) *vsched.Scenario {
 		_, _, polls := netpoll.VerifManagerState()
 		if len(polls) != configured[last] {
 			add("pool-size", fmt.Sprintf("pool holds %d pollers, %d configured", len(polls), configured[last]))
+		}
+		if len(unserved) > 0 {
+			add("poller-without-loop", fmt.Sprintf("pollers with wake-up descriptors %v are part of the pool (Pick hands them out) but no loop serves them: a wake-up written to them is never read", unserved))
 		}
 		if liveLoops != configured[last] {
 			add("running-loops", fmt.Sprintf("%d poller loops are running, %d configured (surplus loops must exit, missing ones must be started)", liveLoops, configured[last]))
